@@ -1,6 +1,7 @@
 import RpmVerif.Lemmas.Decode
 import RpmVerif.Model.Accessors
 import RpmVerif.Gen.FileEntriesShape
+import RpmVerif.Spec.ScriptletTags
 import RpmVerif.Lemmas.PkgFiles  -- shares the auxiliary `buildEntries` match lemmas (two modules realising them independently cannot be imported together)
 /-!
 # C05 — metadata accessors return exactly what the header stores
@@ -833,5 +834,15 @@ example : getScriptlet (hSize [⟨1023, .str [120], 0, 1⟩, ⟨5020, .str [49],
 example : getScriptlet (hSize [⟨1023, .str [120], 0, 1⟩, ⟨5020, .int32 [3], 0, 1⟩, ⟨1085, .strArray [[47]], 0, 1⟩]) (1023, 5020, 1085) =
     .ok ⟨[120], some 3, some [[47]]⟩ := by decide
 example : getScriptlet (hSize [⟨5020, .int32 [3], 0, 1⟩]) (1023, 5020, 1085) = .err "notfound" := by decide
+
+/-! ### the scriptlet tag triples of the CODE are rpm's (seed C05-13) -/
+
+/-- the nine `*_TAGS` triples scraped from src/constants.rs are the (script, flags, program) tags of rpm's `rpmtag.h`:
+every scriptlet accessor reads ITS OWN flags and interpreter entries, not a neighbour's -/
+theorem scriptlet_tags_standard : Gen.scriptletTags = RpmVerif.Spec.stdScriptletTags := by decide
+
+/-- no tag serves two purposes: the 27 tags of the nine triples are pairwise distinct -/
+theorem scriptlet_tags_distinct :
+    (Gen.scriptletTags.flatMap fun t => [t.2.1, t.2.2.1, t.2.2.2]).Nodup := by decide
 
 end RpmVerif.C05
